@@ -21,7 +21,7 @@
    numeric DEC mode codes the library knows (`decmode_all`).
 
    `wf r` bounds the parameters; `print` is total on well-formed reports. *)
-From Coq Require Import List NArith Bool.
+From Coq Require Import List NArith Bool String.
 From SNT Require Import Base.Dec10 Render.FaceModel Encoder.FaceEnc Decoder.SgrRef Decoder.EvModel.
 Import ListNotations.
 Local Open Scope N_scope.
@@ -34,15 +34,15 @@ Inductive report :=
 | RLit (w : list N)                                    (* a sequence of the literal key table *)
 | RXterm (k : kname) (mods : N) (alt_form : bool)      (* a key in the xterm PC-style / VT220-style encoding *)
 | RChar (c : N)                                        (* a printable character typed *)
-| RKittyKey (k : kname) (mods : N)
+| RKittyKey (k : kname) (mods : N) (alts : list (option N))   (* alternate key codes (shifted : base layout), possibly empty *)
 | RKeyLevel (flags : N)
-| RMouse (m : mname) (mods : N) (press motion : bool) (row col : N)
+| RMouse (code : N) (press : bool) (row col : N)         (* SGR mouse report with the raw button code Cb *)
 | RCursor (row col : N)
 | RSize (ch cw ph pw : N)
 | RDecMode (mode status : N)
 | RDevAttrs (attrs : list N)
 | RKittyImage (id : N) (placement : option N) (error : option (list N))
-| RColor (name : tcolor) (c : rgba) (form : cform) (upper : bool) (e : osc_end)
+| RColor (name : tcolor) (r g b : N) (form : cform) (upper : bool) (e : osc_end)   (* channels as transmitted: 4 / 8 / 12 / 16 bits *)
 | RTermcapOk (caps : list (list N * list N)) (upper : bool)
 | RTermcapFail (names : list (list N)) (upper : bool)
 | RPaste (text : list N)
@@ -73,36 +73,50 @@ Definition kitty_code (k : kname) : option N :=
   | _ => None
   end.
 
-(* SGR mouse button codes; the two wheel codes are NAMED by the library *)
-Definition mouse_code (m : mname) : N :=
-  match m with
-  | MLeft => 0 | MMiddle => 1 | MRight => 2 | MMove => 3
-  | MWheelDown => 64 | MWheelUp => 65
-  end.
+(* xterm ctlseqs, "Extended coordinates" (SGR 1006): Cb = button + 4 shift + 8 meta + 16 control
+   + 32 motion; button: 0 MB1, 1 MB2, 2 MB3, 3 none (motion with no button down); + 64 for buttons
+   4..7 (64 / 65 wheel, 66 / 67 horizontal wheel); + 128 for buttons 8..11.
+   NAMES are the library's: 0 left, 1 middle, 2 right, 3 move, 64 "wheel down", 65 "wheel up";
+   the horizontal wheel and buttons 8..11 have no name in the library, such a report denotes no
+   named button.  (The library's Mouse event has no field for the motion flag: a drag report and a
+   click report of the same button denote the same event.) *)
+Definition mouse_name (code : N) : option mname :=
+  if 128 <=? code then None
+  else
+    let b := code mod 4 in
+    if 64 <=? code then (if b =? 0 then Some MWheelDown else if b =? 1 then Some MWheelUp else None)
+    else Some (if b =? 0 then MLeft else if b =? 1 then MMiddle else if b =? 2 then MRight else MMove).
+Definition mouse_mods (code : N) : N := (code / 4) mod 8.
 
-(* a channel value 0..255 written with `n` hex digits, scaled as XParseColor's rgb: syntax *)
-Definition chan (form : cform) (upper : bool) (v : N) : list N :=
+(* XParseColor: rgb:<r>/<g>/<b> with 1..4 hex digits per channel, "scaled": an n-digit value h
+   stands for the 16-bit intensity h * 65535 / (16^n - 1); #rrggbb gives 8 bits per channel.  The
+   library's colours have 8 bits per channel: the most significant byte of the 16-bit intensity
+   (what an X server does for 8-bit visuals). *)
+Definition chan_digits (form : cform) : nat :=
+  match form with Rgb1 => 1 | Rgb2 | Hash2 => 2 | Rgb3 => 3 | Rgb4 => 4 end%nat.
+Definition chan_bound (form : cform) : N := 16 ^ N.of_nat (chan_digits form).
+Definition scale8 (form : cform) (v : N) : N := (v * 65535 / (chan_bound form - 1)) / 256.
+
+Fixpoint hex_n (upper : bool) (n : nat) (v : N) : list N :=
+  match n with
+  | O => []
+  | S k => hex_n upper k (v / 16) ++ [hex_digit upper (v mod 16)]
+  end.
+Definition chan (form : cform) (upper : bool) (v : N) : list N := hex_n upper (chan_digits form) v.
+
+Definition color_spec (r g b : N) (form : cform) (upper : bool) : list N :=
   match form with
-  | Rgb1 => [hex_digit upper (v / 17)]
-  | Rgb2 | Hash2 => hex2 upper v
-  | Rgb3 => hex2 upper v ++ [hex_digit upper (v / 16)]
-  | Rgb4 => hex2 upper v ++ hex2 upper v
-  end.
-
-Definition color_spec (c : rgba) (form : cform) (upper : bool) : list N :=
-  match c with
-  | RGBA r g b _ =>
-      match form with
-      | Hash2 => [35] ++ chan form upper r ++ chan form upper g ++ chan form upper b
-      | _ => [114; 103; 98; 58] ++ chan form upper r ++ [47] ++ chan form upper g ++ [47] ++ chan form upper b
-      end
+  | Hash2 => [35] ++ chan form upper r ++ chan form upper g ++ chan form upper b
+  | _ => [114; 103; 98; 58] ++ chan form upper r ++ [47] ++ chan form upper g ++ [47] ++ chan form upper b
   end.
 
 (* xterm ctlseqs, "PC-Style Function Keys" and "VT220-Style Function Keys": cursor keys CSI A..D,
    Home / End CSI H / F, F1..F4 SS3 P..S, the `~` keys CSI n ~ (1 Home, 2 Insert, 3 Delete, 4 End,
    5 PageUp, 6 PageDown, 11..15 F1..F5, 17..21 F6..F10, 23 24 F11 F12); a modified key inserts the
-   parameter 1 + mask (shift 1, alt 2, ctrl 4): CSI 1 ; m X and CSI n ; m ~.  Alt sends ESC before
-   the character, Ctrl+letter sends the letter's control code, DEL is backspace. *)
+   parameter 1 + mask: CSI 1 ; m X and CSI n ; m ~.  The mask is xterm's shift 1, alt 2, ctrl 4,
+   meta 8 (parameters 2..16) and, in the same forms, the kitty protocol's 8-bit mask (super 8,
+   hyper 16, meta 32, caps_lock 64, num_lock 128): every mask below 256 is a legitimate report.
+   Alt sends ESC before the character, Ctrl+letter sends the letter's control code, DEL is backspace. *)
 Definition final_byte (k : kname) : option N :=
   match k with
   | KUp => Some 65 | KDown => Some 66 | KRight => Some 67 | KLeft => Some 68 | KEnd => Some 70 | KHome => Some 72
@@ -122,13 +136,19 @@ Definition tilde_code (k : kname) (alt_form : bool) : option N :=
   end.
 (* `alt_form`: the VT220-style `~` encoding of Home / End / F1..F4 instead of the final-byte one *)
 Definition xterm_seq (k : kname) (mods : N) (alt_form : bool) : option (list N) :=
-  if 8 <=? mods then None
+  if 256 <=? mods then None
   else
     match k with
     | KBackspace => if mods =? 0 then Some [127] else None
     | KChar c =>
-        if (mods =? 2) && (((97 <=? c) && (c <=? 122)) || ((48 <=? c) && (c <=? 57))) then Some [27; c]
+        (* Alt + printable ASCII other than upper case: ESC c (not ESC [ ] _ : introducers) *)
+        if (mods =? 2) && (33 <=? c) && (c <=? 126) && negb ((65 <=? c) && (c <=? 90))
+           && negb ((c =? 91) || (c =? 93) || (c =? 95)) then Some [27; c]
+        (* Alt + Shift + letter: ESC and the upper case letter (not ESC O, ESC P: introducers) *)
+        else if (mods =? 3) && (97 <=? c) && (c <=? 122) && negb ((c =? 111) || (c =? 112)) then Some [27; c - 32]
+        (* Ctrl + letter / Ctrl + space: the control code *)
         else if (mods =? 4) && (97 <=? c) && (c <=? 122) then Some [c - 96]
+        else if (mods =? 4) && (c =? 32) then Some [0]
         else None
     | _ =>
         match (if alt_form then None else final_byte k), tilde_code k alt_form with
@@ -142,20 +162,25 @@ Definition xterm_seq (k : kname) (mods : N) (alt_form : bool) : option (list N) 
         end
     end.
 
+(* kitty "report alternate keys": CSI unicode-key-code:shifted-key:base-layout-key ; modifiers u,
+   either alternate may be empty.  (Event types `modifiers:event` and the text field are sent only
+   under progressive-enhancement flags 2 and 16, which the library does not request.) *)
+Definition kitty_alts (alts : list (option N)) : list N :=
+  flat_map (fun a => 58 :: match a with Some x => digits x | None => [] end) alts.
+
 Definition print (r : report) : list N :=
   match r with
   | RLit w => w
   | RXterm k mods alt_form => match xterm_seq k mods alt_form with Some w => w | None => [] end
   | RChar c => utf8_encode c
-  | RKittyKey k mods =>
+  | RKittyKey k mods alts =>
       match kitty_code k with
-      | Some code => CSI ++ digits code ++ (if mods =? 0 then [] else [59] ++ digits (mods + 1)) ++ [117]
+      | Some code => CSI ++ (digits code ++ kitty_alts alts) ++ (if mods =? 0 then [] else [59] ++ digits (mods + 1)) ++ [117]
       | None => []
       end
   | RKeyLevel flags => CSI ++ [63] ++ digits flags ++ [117]
-  | RMouse m mods press motion row col =>
-      CSI ++ [60] ++ digits (mouse_code m + 4 * mods + (if motion then 32 else 0))
-          ++ [59] ++ digits (col + 1) ++ [59] ++ digits (row + 1) ++ [if press then 77 else 109]
+  | RMouse code press row col =>
+      CSI ++ [60] ++ digits code ++ [59] ++ digits (col + 1) ++ [59] ++ digits (row + 1) ++ [if press then 77 else 109]
   | RCursor row col => CSI ++ digits (row + 1) ++ [59] ++ digits (col + 1) ++ [82]
   | RSize ch cw ph pw =>
       CSI ++ [56; 59] ++ digits ch ++ [59] ++ digits cw ++ [116]
@@ -166,10 +191,10 @@ Definition print (r : report) : list N :=
       [27; 95; 71] ++ [105; 61] ++ digits id
       ++ (match placement with Some p => [44; 112; 61] ++ digits p | None => [] end)
       ++ [59] ++ (match error with None => [79; 75] | Some msg => msg end) ++ ST
-  | RColor name c form upper e =>
+  | RColor name r g b form upper e =>
       [27; 93]
       ++ (match name with TFg => [49; 48] | TBg => [49; 49] | TPalette i => [52; 59] ++ digits i end)
-      ++ [59] ++ color_spec c form upper ++ (match e with EndST => ST | EndBEL => [7] end)
+      ++ [59] ++ color_spec r g b form upper ++ (match e with EndST => ST | EndBEL => [7] end)
   | RTermcapOk caps upper =>
       [27; 80; 49; 43; 114]
       ++ join_with [59] (map (fun kv => hex_string upper (fst kv) ++ [61] ++ hex_string upper (snd kv)) caps) ++ ST
@@ -195,27 +220,63 @@ Definition face_of_rface (r : rface) : face :=
           + (if r_blink r then FA_BLINK else 0) + (if r_reverse r then FA_REVERSE else 0)
           + (if r_strike r then FA_STRIKE else 0)).
 
+(* DA1 carries a SET of attributes (the event holds a BTreeSet): the attributes in increasing
+   order without repetition, whatever order the terminal sent them in (VT220: class first) *)
+Fixpoint sd_insert (x : N) (l : list N) : list N :=
+  match l with
+  | [] => [x]
+  | y :: r => if x <? y then x :: l else if x =? y then l else y :: sd_insert x r
+  end.
+Definition sort_dedup (l : list N) : list N := fold_right sd_insert [] l.
+
 (* `tab`: the library's naming table for literal sequences *)
 Definition denote (tab : list (list N * (kname * N))) (r : report) : tev :=
   match r with
   | RLit w => match lit_lookup tab w with Some (k, mods) => EKey k mods | None => ERaw w end
   | RXterm k mods _ => EKey k mods
   | RChar c => EKey (KChar c) 0
-  | RKittyKey k mods => EKey k mods
+  | RKittyKey k mods _ => EKey k mods
   | RKeyLevel flags => EKeyLevel flags
-  | RMouse m mods press _ row col => EMouse m (if press then N.lor mods MOD_PRESS else mods) row col
+  | RMouse code press row col =>
+      match mouse_name code with
+      | Some m => EMouse m (if press then mouse_mods code + MOD_PRESS else mouse_mods code) row col
+      | None => ERaw (print r)          (* no named button: the bytes are not an event of the library *)
+      end
   | RCursor row col => ECursor row col
   | RSize ch cw ph pw => ESize ch cw ph pw
   | RDecMode mode status => EDecMode mode status
-  | RDevAttrs attrs => EDevAttrs attrs
+  | RDevAttrs attrs => EDevAttrs (sort_dedup attrs)
   | RKittyImage id placement error => EKittyImage id placement error
-  | RColor name c _ _ _ => EColor name c
+  | RColor name r g b form _ _ => EColor name (RGBA (scale8 form r) (scale8 form g) (scale8 form b) 255)
   | RTermcapOk caps _ => ETermcap (map (fun kv => (fst kv, Some (snd kv))) caps)
   | RTermcapFail names _ => ETermcap (map (fun k => (k, None)) names)
   | RPaste text => EPaste text
   | RSgr _ => ERaw []      (* a modification record is compared by its meaning: see sgr_event_ok *)
   | RFaceReport params => EFaceGet (face_of_rface (ref_sgr params rface_default))
   end.
+
+(* DEC private modes the library names, with the numbers of xterm ctlseqs "DEC Private Mode Set
+   (DECSET)" / the synchronized-output specification, and the DECRPM status values (DEC STD 070:
+   0 not recognized, 1 set, 2 reset, 3 permanently set, 4 permanently reset) *)
+Definition xterm_decmodes : list (string * N) :=
+  [("AutoWrap", 7);              (* DECAWM *)
+   ("VisibleCursor", 25);        (* DECTCEM *)
+   ("SixelScrolling", 80);       (* DECSDM *)
+   ("MouseReport", 1000);        (* send mouse X & Y on button press and release *)
+   ("MouseMotions", 1003);       (* all-motion mouse tracking *)
+   ("MouseSGR", 1006);           (* SGR mouse mode *)
+   ("AltScreen", 1049);          (* save cursor, switch to the alternate screen buffer *)
+   ("BracketedPaste", 2004);     (* bracketed paste mode *)
+   ("SynchronizedOutput", 2026)  (* synchronized output *)
+  ]%string.
+Definition decrpm_statuses : list (string * N) :=
+  [("NotRecognized", 0); ("Enabled", 1); ("Disabled", 2); ("PermanentlyEnabled", 3); ("PermanentlyDisabled", 4)]%string.
+
+Definition named_eqb (a b : string * N) : bool := String.eqb (fst a) (fst b) && (snd a =? snd b).
+(* every variant of the library's enum carries the documented number of its name, and every
+   documented mode is a variant *)
+Definition named_tables_agree (lib doc : list (string * N)) : bool :=
+  forallb (fun e => existsb (named_eqb e) doc) lib && forallb (fun e => existsb (named_eqb e) lib) doc.
 
 (* ---- well-formedness ---- *)
 Definition coord_ok (n : N) : bool := n <? 65535.          (* transmitted value n + 1 in 1..65535 *)
@@ -244,17 +305,27 @@ Definition kitty_char_ok (c : N) : bool :=
   scalar_ok c && negb ((c =? 27) || (c =? 13) || (c =? 9) || (c =? 127))
   && negb ((57344 <=? c) && (c <=? 63743)).
 
+(* ECMA-48 / ISO 2022: ESC alone and the 7-bit introducers ESC O (SS3), ESC P (DCS), ESC [ (CSI),
+   ESC ] (OSC), ESC _ (APC) are prefixes of longer control sequences; as key reports (Esc, Alt+O ..)
+   they are inherently ambiguous when more input follows and are resolved by timing, not by the
+   decoder: not self-delimiting *)
+Definition bare_prefix (w : list N) : bool :=
+  match w with
+  | [27] | [27; 79] | [27; 80] | [27; 91] | [27; 93] | [27; 95] => true
+  | _ => false
+  end.
+
 Section Wf.
   Variable decmode_all : list N.              (* the DEC private mode codes the library names *)
   Variable lit_table : list (list N * (kname * N)).   (* the literal key table *)
 
   Definition wf (r : report) : bool :=
     match r with
-    | RLit w => match lit_lookup lit_table w with Some _ => true | None => false end
+    | RLit w => match lit_lookup lit_table w with Some _ => negb (bare_prefix w) | None => false end
     | RXterm k mods alt_form => match xterm_seq k mods alt_form with Some _ => true | None => false end
     | RChar c => printable c
-    | RKittyKey k mods =>
-        (mods <? 256)
+    | RKittyKey k mods alts =>
+        (mods <? 256) && forallb (fun a => match a with Some x => num_ok x | None => true end) alts
         && match k with
            | KEsc | KEnter | KTab | KBackspace => true
            | KF n => (13 <=? n) && (n <=? 35)
@@ -262,7 +333,7 @@ Section Wf.
            | _ => false
            end
     | RKeyLevel flags => num_ok flags
-    | RMouse m mods press motion row col => (mods <? 8) && coord_ok row && coord_ok col
+    | RMouse code press row col => (code <? 256) && coord_ok row && coord_ok col
     | RCursor row col =>
         (* CSI 1 ; n R with n in 2..8 is a modified F3 of the key table: resolved for the key *)
         coord_ok row && coord_ok col && negb ((row =? 0) && (1 <=? col) && (col <=? 7))
@@ -270,23 +341,22 @@ Section Wf.
     | RDecMode mode status => existsb (N.eqb mode) decmode_all && (status <? 5)
     | RDevAttrs attrs =>
         negb (match attrs with [] => true | _ => false end)
-        && forallb (fun a => (0 <? a) && num_ok a) attrs && strictly_increasing attrs
+        && forallb (fun a => (0 <? a) && num_ok a) attrs
     | RKittyImage id placement error =>
         num_ok id && match placement with Some p => num_ok p | None => true end
         && match error with
            | None => true
            | Some msg => utf8_valid msg && forallb text_byte_ok msg && negb (bytes_eqb msg [79; 75])
            end
-    | RColor name (RGBA r g b a) form upper e =>
-        (r <? 256) && (g <? 256) && (b <? 256) && (a =? 255)
+    | RColor name r g b form upper e =>
+        (r <? chan_bound form) && (g <? chan_bound form) && (b <? chan_bound form)
         && match name with TPalette i => i <? 256 | _ => true end
-        && match form with Rgb1 => (r mod 17 =? 0) && (g mod 17 =? 0) && (b mod 17 =? 0) | _ => true end
     | RTermcapOk caps upper =>
         forallb (fun kv => name_ok (fst kv) && name_ok (snd kv)) caps && keys_increasing (map fst caps)
     | RTermcapFail names upper =>
         negb (match names with [] => true | _ => false end) && forallb name_ok names && keys_increasing names
     | RPaste text => utf8_valid text && forallb text_byte_ok text
-    | RSgr params | RFaceReport params => sgr_wf params && negb (sgr_inexpressible params)
+    | RSgr params | RFaceReport params => sgr_wf params
     end.
 End Wf.
 
@@ -296,3 +366,11 @@ Definition probe1 : rface := mkR (Some (RGBA 1 1 1 255)) (Some (RGBA 2 2 2 255))
 Definition probe2 : rface := mkR (Some (RGBA 3 3 3 255)) (Some (RGBA 4 4 4 255)) UDashed true true true false true.
 Definition sgr_event_ok (params : list N) (m : face_modify) : bool :=
   forallb (fun r => rface_eqb (rapply m r) (ref_sgr params r)) [rface_default; probe1; probe2].
+
+(* known finding C06-inexpressible as it shows in events (C04-face-report-inverse): with one of
+   7 / 27 / 39 / 49 among the parameters the library's result is that of the recorded machine
+   (those four parameters ignored) *)
+Definition sgr_event_recorded (params : list N) (m : face_modify) : bool :=
+  forallb (fun r => rface_eqb (rapply m r) (ref_sgr_lib params r)) [rface_default; probe1; probe2].
+Definition face_report_recorded (params : list N) : tev :=
+  EFaceGet (face_of_rface (ref_sgr_lib params rface_default)).
